@@ -60,6 +60,7 @@ def wfExpr : Expr → Bool
   | .regexMap _ _ id => rawC (regexMid id) && rawC (regexPost id)
   | .mapDrop m _ => wfExpr m
   | .labelsFp => true
+  | .quantileAgg units scale col => rawE (b "quantile(" ++ b (fixedText units scale) ++ b ")(" ++ b col ++ b ")")
 def wfSels : List Sel → Bool
   | [] => true
   | s :: ss => wfSel s && wfSels ss
